@@ -2157,6 +2157,7 @@ size_t ZSTD_decompressStream(ZSTD_DStream* zds, ZSTD_outBuffer* output, ZSTD_inB
     char* const oend = output->size != 0 ? dst + output->size : dst;
     char* op = ostart;
     U32 someMoreWork = 1;
+    int singleUseDictTaken = 0;   /* this call starts a frame with a single-use dictionary (ZSTD_DCtx_refPrefix) */
 
     DEBUGLOG(5, "ZSTD_decompressStream");
     RETURN_ERROR_IF(
@@ -2293,7 +2294,10 @@ size_t ZSTD_decompressStream(ZSTD_DStream* zds, ZSTD_outBuffer* output, ZSTD_inB
                 zds->expected = MEM_readLE32(zds->headerBuffer + ZSTD_FRAMEIDSIZE);
                 zds->stage = ZSTDds_skipFrame;
             } else {
-                FORWARD_IF_ERROR(ZSTD_decompressBegin_usingDDict(zds, ZSTD_getDDict(zds)), "");
+                /* a single-use dictionary is only looked at here : it is used up once the frame has really started (below),
+                 * not when this start fails (window limit, allocation) and is tried again */
+                singleUseDictTaken = (zds->dictUses == ZSTD_use_once);
+                FORWARD_IF_ERROR(ZSTD_decompressBegin_usingDDict(zds, singleUseDictTaken ? zds->ddict : ZSTD_getDDict(zds)), "");
                 FORWARD_IF_ERROR(ZSTD_decodeFrameHeader(zds, zds->headerBuffer, zds->lhSize), "");
                 zds->expected = ZSTD_blockHeaderSize;
                 zds->stage = ZSTDds_decodeBlockHeader;
@@ -2343,6 +2347,7 @@ size_t ZSTD_decompressStream(ZSTD_DStream* zds, ZSTD_outBuffer* output, ZSTD_inB
                         zds->outBuff = zds->inBuff + zds->inBuffSize;
                         zds->outBuffSize = neededOutBuffSize;
             }   }   }
+            if (singleUseDictTaken) zds->dictUses = ZSTD_dont_use;   /* the frame has started : same effect as ZSTD_getDDict() */
             zds->streamStage = zdss_read;
             ZSTD_FALLTHROUGH;
 
